@@ -16,6 +16,10 @@ type jb struct {
 	Feat JSONFeat
 	// EscapeTemplates: string literals are escaped for full-expression mode ("${" -> "$${").
 	EscapeTemplates bool
+	// PlainObject lists block types whose bodies are read in dynamic-attributes mode
+	// (JustAttributes), for which json/spec.md requires a single JSON object.
+	PlainObject map[string]bool
+	plain       bool
 }
 
 func jsonString(s string) string {
@@ -136,6 +140,9 @@ func (j *jb) pick(max int, label string) int {
 
 // object renders ordered properties as one JSON object or as an array of objects.
 func (j *jb) object(props []jprop, allowArray bool, allowComment bool) string {
+	if j.plain {
+		allowArray = false
+	}
 	if allowComment && j.pick(4, "json_comment") == 0 && j.wild {
 		pos := j.pick(len(props), "comment_pos")
 		c := jprop{"//", `"a comment"`}
@@ -266,7 +273,10 @@ func (j *jb) body(b *ast.Body) (string, bool) {
 			}
 			props = append(props, jprop{x.Name, v})
 		case ast.Block:
+			savedPlain := j.plain
+			j.plain = j.PlainObject[x.Type]
 			inner, ok := j.body(x.Body)
+			j.plain = savedPlain
 			if !ok {
 				return "", false
 			}
@@ -301,8 +311,11 @@ func (j *jb) body(b *ast.Body) (string, bool) {
 }
 
 // JSONFile renders a body tree as one of its admissible JSON encodings.
-func JSONFile(b *ast.Body, ch Chooser, wild bool, escapeTemplates bool) (string, JSONFeat, bool) {
-	j := &jb{ch: ch, wild: wild, Feat: JSONFeat{}, EscapeTemplates: escapeTemplates}
+func JSONFile(b *ast.Body, ch Chooser, wild bool, escapeTemplates bool, plainObject ...string) (string, JSONFeat, bool) {
+	j := &jb{ch: ch, wild: wild, Feat: JSONFeat{}, EscapeTemplates: escapeTemplates, PlainObject: map[string]bool{}}
+	for _, p := range plainObject {
+		j.PlainObject[p] = true
+	}
 	s, ok := j.body(b)
 	return s, j.Feat, ok
 }
